@@ -380,3 +380,13 @@ package rlwe
 //@   requires 0 < len(p.ringQ.SubRings) && 1 < nr && p.ringType != ring.ConjugateInvariant
 //@   ensures result == nr - 1
 //@   ensures cong(result * result, 1, nr) by cong_intro((nr-1)*(nr-1), 1, nr - 2, nr)
+
+// The index table of a Galois element is built lazily by CheckAndGetGaloisKey; the automorphism that
+// follows reads it from the SAME evaluator (property C11: with the key present the operation does
+// not fail).  So on success the evaluator the caller holds has an index map.
+//@ afunc Evaluator.CheckAndGetGaloisKey
+//@   property C11
+//@   ensures implies(isnil(err), !isnil(eval.automorphismIndex))
+
+//@ afunc Parameters.SolveDiscreteLogGaloisElement
+//@   trusted opaque at the abstract level (only used to format an error message here)
